@@ -24,8 +24,10 @@
 (*           documentation and is reported as drift only.                  *)
 (* Layer B : Sign / Verify transcribed from relay-crates/signedsource:     *)
 (*           sign replaces EVERY T by the signature of the unsigned file;  *)
-(*           verify looks at the FIRST "G S(h)", restores ONE token there  *)
-(*           and compares digests.                                         *)
+(*           verify (repaired) accepts if for SOME "G S(h)" the file with  *)
+(*           the token restored at every S(h) hashes to h.  The verify     *)
+(*           before the repair (first match, one token) is kept as         *)
+(*           VerifyFirstOnly: the model shows where it deviates.           *)
 (***************************************************************************)
 EXTENDS Naturals, Sequences, FiniteSets, TLC
 
@@ -57,7 +59,16 @@ Sign(x) == LET z == LiftSeq(x) IN
 SigAt(y, i) == i < Len(y) /\ y[i].k = "G" /\ y[i + 1].k = "S"
 HasSig(y)   == \E i \in 1..Len(y) : SigAt(y, i)
 FirstSig(y) == CHOOSE i \in 1..Len(y) : SigAt(y, i) /\ \A j \in 1..(i - 1) : ~SigAt(y, j)
+\* the file with the token restored wherever the signature with digest h occurs
+Restore(y, h) == [ j \in 1..Len(y) |-> IF y[j].k = "S" /\ y[j].h = h THEN [ k |-> "T" ] ELSE y[j] ]
+\* repaired verify (fix_c33_verify_restores_all): some "G S(h)" whose digest is the hash of the file with the
+\* token restored at EVERY occurrence of S(h)
 Verify(y) ==
+    \E i \in 1..Len(y) :
+        /\ SigAt(y, i)
+        /\ y[i + 1].h.t = "hash" /\ y[i + 1].h.of = Restore(y, y[i + 1].h)
+\* verify as it was before the repair: only the FIRST "G S(h)" is looked at and only ONE token is restored
+VerifyFirstOnly(y) ==
     /\ HasSig(y)
     /\ LET i == FirstSig(y)
            unsigned == [ y EXCEPT ![i + 1] = [ k |-> "T" ] ]
